@@ -186,6 +186,8 @@ def plan(tier):
     N1 = 6 if tier == 'quick' else 9
     for k, p in GRID:
         for n in range(0, N1 + 1):
+            if tier == 'thorough' and len(p) == 1 and n > 8:
+                continue        # one-letter prefixes match almost everywhere: length 9 does not finish within the time limit
             specs.append(dict(k=k, prefix=p, lens=[n]))
         # two sequences
         tot = 6 if tier == 'quick' else 8
@@ -237,7 +239,7 @@ def main(tier):
                 r['error'] = f'counterexample did not reproduce on the real code: {rec}'
                 run.inconclusive.append(r)
     run.bounds = {'(k,prefix) grid': GRID + [(11, 'ATGAC'), (12, 'AT'), (5, 'AT'), (9, 'A'), (17, 'A')],
-                  'sequence length': '0..6 one sequence, total 6 two sequences (quick); 0..9 / total 8 (thorough)', 'bytes': 'all 256 values per position'}
+                  'sequence length': '0..6 one sequence, total 6 two sequences (quick); 0..9 (0..8 for one-letter prefixes) / total 8 (thorough)', 'bytes': 'all 256 values per position'}
     run.outside = ['sequences longer than the bound', 'prefixes outside the grid', 'ArrayAccumulator for k > 11 (4^k-element array)',
                    'non-ASCII str input (raises UnicodeEncodeError; outside the documented domain)', 'Biopython Seq internals (modelled as bytes: __getitem__ slicing and bytes())']
     run.assumptions = ['library models of kbmc.models (bytes.find/upper/slicing, numpy zeros/flatnonzero/fromiter/sort as "the set S with dtype D, sorted flag") validated differentially',
